@@ -335,6 +335,18 @@ def run(pid, tier, seed, replay):
         rng.shuffle(bys)
         bys = bys[:nby]
     log("J2: %d bystander variants" % len(bys))
+    # hostname variants: manifest contents have a hostname dimension. The first manifest names hostA+hostB (what the
+    # manager reserves); under "move" every later content names another host instead of hostA, under "drop" no host.
+    # Judged as before: at quiescence after a close everything RESERVED for the lease (hostA) is free again for another
+    # deployment. Hostnames merely added by an update are not looked at (hostname extension, finding F1).
+    cand = [sc for sc in scripts if "c" in sc["stim"] and "s" not in sc["stim"] and len(sc["stim"]) <= 40
+            and any(x[0] == "m" and x not in ("m", "m1") for x in sc["stim"])]
+    cand.sort(key=lambda sc: (len(sc["stim"]), sc["pre"], sc["stim"]))
+    nh = 100 if quick else 3000
+    pick = cand[:nh] + rng.sample(cand[nh:], min(nh, len(cand) - nh)) if len(cand) > nh else cand
+    hvs = [dict(id=3000000 + 2 * sc["id"] + k, stim=sc["stim"], pre=sc["pre"], hosts=h)
+           for sc in pick for k, h in enumerate(("move", "drop"))]
+    log("J2: %d hostname variants" % len(hvs))
 
     # ---- J2 replay (sharded over processes; one system under test at a time per process) -----------------
     def shard(items, n):
@@ -350,6 +362,7 @@ def run(pid, tier, seed, replay):
         shards.append((long_ones, True))
     shards += [(sh, False) for sh in shard(bursts, max(2, nproc // 2))]
     shards += [(sh, True) for sh in shard(bys, max(2, nproc // 3))]
+    shards += [(sh, True) for sh in shard(hvs, max(2, nproc // 3))]
     rfuts = []
     for k, (sh, atomic) in enumerate(shards):
         ip, op = os.path.join(work, "s%d.ndjson" % k), os.path.join(work, "t%d.ndjson" % k)
@@ -404,7 +417,7 @@ def run(pid, tier, seed, replay):
                              generated=r.generated, depth=r.depth, wall_s=round(r.wall_s, 1))
 
     # ---- verdict ---------------------------------------------------------------------------------------
-    sid = {s["id"]: s for s in scripts + bursts + bys}
+    sid = {s["id"]: s for s in scripts + bursts + bys + hvs}
     violations, drift, inconclusive = [], [], []
     groups = {}
     for i, recs in by.items():
@@ -422,15 +435,17 @@ def run(pid, tier, seed, replay):
             groups.setdefault("".join(sorted(v["fail"])), []).append(i)
     for cl, ids in sorted(groups.items()):
         # stable signature: prefer a plain forced-schedule script over its burst / bystander variants
-        best = min(ids, key=lambda i: (bool(sid[i].get("burst")), bool(sid[i].get("by")), len(sid[i]["stim"]),
+        best = min(ids, key=lambda i: (bool(sid[i].get("burst")), bool(sid[i].get("by")), bool(sid[i].get("hosts")),
+                                       len(sid[i]["stim"]),
                                        sid[i]["pre"], sid[i]["stim"]))
         s = sid[best]
-        sig = "C14:%s:%s%s%s" % (cl, "pre " if s["pre"] else "", "bystander " if s.get("by") else "", " ".join(s["stim"]))
+        sig = "C14:%s:%s%s%s" % (cl, "pre " if s["pre"] else "", ("bystander " if s.get("by") else "") + ("hosts=%s " % s["hosts"] if s.get("hosts") else ""), " ".join(s["stim"]))
         detail = "%d replayed scripts fail clause(s) %s\n" % (len(ids), ", ".join("(%s) %s" % (c, CLAUSES[c]) for c in cl))
         detail += "shortest: %s (pre-existing deployment: %s)\n" % (" ".join(s["stim"]), s["pre"])
         detail += "\n".join(json.dumps(show(r)) for r in by[best])
         violations.append(vlib.Violation(pid, sig, detail, {
-            "script.json": json.dumps(dict(stim=s["stim"], pre=s["pre"], burst=bool(s.get("burst")), by=bool(s.get("by")))),
+            "script.json": json.dumps(dict(stim=s["stim"], pre=s["pre"], burst=bool(s.get("burst")), by=bool(s.get("by")),
+                                          hosts=s.get("hosts", ""))),
             "trace.ndjson": "".join(json.dumps(r) + "\n" for r in by[best])}))
     fgroups = {}
     for key, recs in fby.items():
@@ -458,9 +473,9 @@ def run(pid, tier, seed, replay):
 
     for key, dpos in drift[:8]:
         recs = by[key] if key in by else fby[key]
-        log("DRIFT execution %s (%s): specification stops following at step %d" % (key, recs[0]["script"], dpos))
+        vlib.log("DRIFT C14 execution %s (%s): specification stops following at step %d" % (key, recs[0]["script"], dpos))
     if forced_order:
-        log("DRIFT %d recorded events had no causal predecessor in the observation" % forced_order)
+        vlib.log("DRIFT C14 %d recorded events had no causal predecessor in the observation" % forced_order)
 
     st = selftest(by, verd, work) if by else {"ok": False, "reason": "no replays"}
     if inconclusive and not violations:
@@ -487,7 +502,8 @@ def run(pid, tier, seed, replay):
         "traces_validated_against_impl": len(by) + len(fby),
         "forced_schedule_scripts_replayed": len([i for i in by if i < 1000000]),
         "burst_variants_replayed": len([i for i in by if 1000000 <= i < 2000000]),
-        "bystander_variants_replayed": len([i for i in by if i >= 2000000]),
+        "bystander_variants_replayed": len([i for i in by if 2000000 <= i < 3000000]),
+        "hostname_variants_replayed": len([i for i in by if i >= 3000000]),
         "free_running_executions": len(fby),
         "evaluations": steps + fsteps,
         "distinct_nontrivial": len(keys),
@@ -540,7 +556,7 @@ def do_replay(pid, tier, seed, path, vh, work, t0):
     ip, op = os.path.join(work, "s.ndjson"), os.path.join(work, "t.ndjson")
     with open(ip, "w") as fh:
         fh.write(json.dumps(dict(id=0, stim=s["stim"], pre=s.get("pre", False), burst=bool(s.get("burst")),
-                                 by=bool(s.get("by")))) + "\n")
+                                 by=bool(s.get("by")), hosts=s.get("hosts", ""))) + "\n")
     run_vh(vh, ["replay", "-in", ip, "-out", op], 600)
     v, _ = judge(op, not s.get("burst"))
     by = read_traces(op)
@@ -550,7 +566,7 @@ def do_replay(pid, tier, seed, path, vh, work, t0):
     if e is None or not e["ended"] or e["stuck"]:
         raise vlib.Inconclusive("replay produced no verdict")
     if e["dpos"]:
-        log("DRIFT specification stops following at step %d" % e["dpos"])
+        vlib.log("DRIFT C14 specification stops following at step %d" % e["dpos"])
     if e["fail"]:
         sig = "C14:%s:%s%s" % ("".join(sorted(e["fail"])), "pre " if s.get("pre") else "", " ".join(s["stim"]))
         viol = [vlib.Violation(pid, sig, "replay of %s fails clause(s) %s" % (path, sorted(e["fail"])),
